@@ -226,7 +226,7 @@ const SUB_LENS: [usize; 9] = [0, 1, 25, 252, 253, 254, 65535, 65536, 65537];
 fn common_spaces(prop: &'static str, flags: [u32; 6], tier: Tier, other_scripts: bool) -> Vec<Space> {
     let mut v = vec![];
     let nseq = if tier.is_thorough() { 5 } else { 4 };
-    let sh_list = std::sync::Arc::new(shapes(3, nseq));
+    let sh_list = std::sync::Arc::new(shapes(if tier.is_thorough() { 4 } else { 3 }, nseq));
     let n = sh_list.len() as u64;
     {
         let l = sh_list.clone();
@@ -291,7 +291,7 @@ fn common_spaces(prop: &'static str, flags: [u32; 6], tier: Tier, other_scripts:
     }));
     // every subscript length 0..=N (interior lengths)
     {
-        let maxlen: u64 = if tier.is_thorough() { 4200 } else { 1100 };
+        let maxlen: u64 = if tier.is_thorough() { 66000 } else { 1100 };
         v.push(Space::new("subscript-length-sweep", (maxlen + 1) * 2, move |case, acc| {
             let c = coords(case.idx, &[maxlen + 1, 2]);
             let tx = base_tx(2, 2, &[5, 0xfffffffe], other_scripts);
@@ -301,7 +301,7 @@ fn common_spaces(prop: &'static str, flags: [u32; 6], tier: Tier, other_scripts:
     }
     // larger shapes: every (n_in 1..=N, n_out 0..=N, input index) with all-distinct inputs and outputs, six flags
     {
-        let nmax: u64 = if tier.is_thorough() { 12 } else { 8 };
+        let nmax: u64 = if tier.is_thorough() { 24 } else { 8 };
         let mut sh3: Vec<(usize, usize, usize)> = vec![];
         for n_in in 1..=nmax as usize {
             for n_out in 0..=nmax as usize {
@@ -336,18 +336,22 @@ fn common_spaces(prop: &'static str, flags: [u32; 6], tier: Tier, other_scripts:
     }
     // relations between inputs: three inputs whose txid / vout / sequence are each drawn from {A, B}
     // (equal outpoints, equal txids with different vouts, equal sequences ...), spent value in {0, 1, 2} (may equal the index)
-    v.push(Space::new("input-relations", 512 * 6 * 3 * 3, move |case, acc| {
-        let c = coords(case.idx, &[512, 6, 3, 3]);
-        let mut tx = base_tx(3, 2, &[0, 0, 0], other_scripts);
-        for k in 0..3usize {
-            let bits = (c[0] >> (3 * k)) & 7;
-            tx.inputs[k].txid_wire = txid((bits & 1) as usize);
-            tx.inputs[k].vout = if bits & 2 == 0 { 0 } else { 1 };
-            tx.inputs[k].sequence = if bits & 4 == 0 { 0xffffffff } else { 2 };
-        }
-        let sub = vec![0xac];
-        check_preimage(prop, &Q { tx: &tx, idx: c[2] as usize, subscript: &sub, value: c[3], flag: flags[c[1] as usize] }, acc, case);
-    }));
+    {
+        let ni: u64 = if tier.is_thorough() { 4 } else { 3 };
+        let combos = 8u64.pow(ni as u32);
+        v.push(Space::new("input-relations", combos * 6 * ni * 3, move |case, acc| {
+            let c = coords(case.idx, &[combos, 6, ni, 3]);
+            let mut tx = base_tx(ni as usize, 2, &vec![0; ni as usize], other_scripts);
+            for k in 0..ni as usize {
+                let bits = (c[0] >> (3 * k)) & 7;
+                tx.inputs[k].txid_wire = txid((bits & 1) as usize);
+                tx.inputs[k].vout = if bits & 2 == 0 { 0 } else { 1 };
+                tx.inputs[k].sequence = if bits & 4 == 0 { 0xffffffff } else { 2 };
+            }
+            let sub = vec![0xac];
+            check_preimage(prop, &Q { tx: &tx, idx: c[2] as usize, subscript: &sub, value: c[3], flag: flags[c[1] as usize] }, acc, case);
+        }));
+    }
     // content sweep: one (or two adjacent) byte(s) through all 256 values at every position of the signed input's txid,
     // of another input's txid, of a 24-byte push in the subscript and of a 24-byte push in an output script
     v.push(Space::new("content-sweep", (32 + 32 + 24 + 24) * 256 * 2, move |case, acc| {
@@ -417,7 +421,26 @@ pub fn spaces_c03(tier: Tier) -> Vec<Space> {
             let (f1, f2) = (sh::FORKID_FLAGS[c[0] as usize], sh::FORKID_FLAGS[c[1] as usize]);
             let mutation = HIST_MUTATIONS[c[2] as usize];
             let idx = c[3] as usize;
-            history_case(acc, case, f1, f2, mutation, idx);
+            history_case(acc, case, f1, f2, &[mutation], idx);
+        }));
+        // every ordered triple (thorough: quadruple) of mutations, each preceded by an observation
+        let nm = HIST_MUTATIONS.len() as u64;
+        let depth: u32 = if tier.is_thorough() { 4 } else { 3 };
+        let nflags: u64 = 6;
+        v.push(Space::new("construct-observe-mutate-sequences", nflags * nflags * nm.pow(depth) * 2, move |case, acc| {
+            let c = coords(case.idx, &[nflags, nflags, nm.pow(depth), 2]);
+            let pick = |k: u64| sh::FORKID_FLAGS[k as usize];
+            let (f1, f2) = (pick(c[0]), pick(c[1]));
+            let mut ms = vec![];
+            let mut r = c[2];
+            for _ in 0..depth {
+                ms.push(HIST_MUTATIONS[(r % nm) as usize]);
+                r /= nm;
+            }
+            if ms.iter().any(|m| *m == "none") {
+                return;
+            }
+            history_case(acc, case, f1, f2, &ms, c[3] as usize);
         }));
     }
     // sign leg: signature over the specified preimage must verify under the reference verifier
@@ -512,19 +535,21 @@ fn lib_txout(o: &ROut) -> bsv::TxOut {
     bsv::TxOut::new(o.value, &Script::from_bytes(&o.script).unwrap())
 }
 
-fn history_case(acc: &mut Acc, case: &Case, f1: u32, f2: u32, mutation: &str, idx: usize) {
+fn history_case(acc: &mut Acc, case: &Case, f1: u32, f2: u32, mutations: &[&str], idx: usize) {
     acc.evaluations += 1;
-    acc.transitions += 4;
+    acc.transitions += 2 + 2 * mutations.len() as u64;
     acc.traces += 1;
     acc.nontrivial_structural += 1;
     let mut model = base_tx(2, 2, &[0x01020304, 0xfffffffe], false);
     let sub = p2pkh(0x55);
     let value = 0x0102030405u64;
-    let input = json!({"flag_before": format!("0x{:02x}", f1), "mutation": mutation, "flag_after": format!("0x{:02x}", f2), "input_index": idx});
-    if mutation == "add_outputs(two) from no outputs" {
+    let input = json!({"flag_before": format!("0x{:02x}", f1), "mutations": mutations, "flag_after": format!("0x{:02x}", f2), "input_index": idx, "note": "the transaction is observed with flag_before before the first and after every mutation but the last, and with flag_after at the end"});
+    if mutations.contains(&"add_outputs(two) from no outputs") {
         model.outputs.clear();
     }
     let m0 = model.clone();
+    // operands of the k-th mutation of a history differ from those of the others
+    let tag = |k: usize| (k as u8).wrapping_mul(0x11);
     let lib = guard(|| -> Result<Vec<u8>, String> {
         let mut t = Transaction::new(m0.version, m0.locktime);
         for i in &m0.inputs {
@@ -534,56 +559,93 @@ fn history_case(acc: &mut Acc, case: &Case, f1: u32, f2: u32, mutation: &str, id
             t.add_output(&lib_txout(o));
         }
         let script = Script::from_bytes(&sub).unwrap();
-        // the first observation only warms the caches; it may legitimately be refused (SINGLE without a matching output)
-        let _ = t.sighash_preimage(flag_to_sighash(f1).unwrap(), idx, &script, value);
-        match mutation {
-            "set_input(same outpoint, other sequence)" => t.set_input(1, &lib_txin(&RIn { sequence: 0x0a0b0c0d, ..m0.inputs[1].clone() })),
-            "set_input(same txid, other vout)" => t.set_input(0, &lib_txin(&RIn { vout: 0x7777, ..m0.inputs[0].clone() })),
-            "set_input(other txid)" => t.set_input(1, &lib_txin(&RIn { txid_wire: [0x5a; 32], ..m0.inputs[1].clone() })),
-            "set_output(same script, other value)" => t.set_output(1, &lib_txout(&ROut { value: 42, ..m0.outputs[1].clone() })),
-            "set_output(other script, same value)" => t.set_output(0, &lib_txout(&ROut { script: vec![0x51], ..m0.outputs[0].clone() })),
-            "set_version" => {
-                t.set_version(0x0badcafe);
+        for (k, mutation) in mutations.iter().enumerate() {
+            // the earlier observations only warm the caches; they may legitimately be refused (SINGLE without a matching output)
+            let _ = t.sighash_preimage(flag_to_sighash(f1).unwrap(), idx, &script, value);
+            let g = tag(k);
+            let cur_in = |t: &Transaction, i: usize| t.get_input(i).ok_or_else(|| "no such input".to_string());
+            let cur_out = |t: &Transaction, i: usize| t.get_output(i).ok_or_else(|| "no such output".to_string());
+            match *mutation {
+                "set_input(same outpoint, other sequence)" => {
+                    let mut i = cur_in(&t, 1)?;
+                    i.set_sequence(0x0a0b0c0d ^ g as u32);
+                    t.set_input(1, &i)
+                }
+                "set_input(same txid, other vout)" => {
+                    let mut i = cur_in(&t, 0)?;
+                    i.set_vout(0x7777 ^ g as u32);
+                    t.set_input(0, &i)
+                }
+                "set_input(other txid)" => {
+                    let mut i = cur_in(&t, 1)?;
+                    i.set_prev_tx_id(&[0x5a ^ g; 32]);
+                    t.set_input(1, &i)
+                }
+                "set_output(same script, other value)" => {
+                    let o = cur_out(&t, 1)?;
+                    t.set_output(1, &bsv::TxOut::new(42 + g as u64, &o.get_script_pub_key()))
+                }
+                "set_output(other script, same value)" => {
+                    let o = cur_out(&t, 0)?;
+                    t.set_output(0, &bsv::TxOut::new(o.get_satoshis(), &Script::from_bytes(&[0x51, 0x01, g]).unwrap()))
+                }
+                "set_version" => {
+                    t.set_version(0x0badcafe ^ g as u32);
+                }
+                "set_nlocktime" => {
+                    t.set_nlocktime(0x0000beef ^ g as u32);
+                }
+                "add_input" => t.add_input(&lib_txin(&RIn { txid_wire: [0x33 ^ g; 32], vout: 9, script: vec![], sequence: 0x00000011 })),
+                "add_output" => t.add_output(&lib_txout(&ROut { value: 77 + g as u64, script: vec![0x52] })),
+                "add_inputs(two)" => t.add_inputs(vec![lib_txin(&RIn { txid_wire: [0x33 ^ g; 32], vout: 9, script: vec![], sequence: 0x00000011 }), lib_txin(&RIn { txid_wire: [0x34 ^ g; 32], vout: 8, script: vec![], sequence: 0x00000012 })]),
+                "add_outputs(two)" | "add_outputs(two) from no outputs" => t.add_outputs(vec![lib_txout(&ROut { value: 77 + g as u64, script: vec![0x52] }), lib_txout(&ROut { value: 78 + g as u64, script: vec![0x53] })]),
+                "add_inputs(one) add_outputs(one)" => {
+                    t.add_inputs(vec![lib_txin(&RIn { txid_wire: [0x33 ^ g; 32], vout: 9, script: vec![], sequence: 0x00000011 })]);
+                    t.add_outputs(vec![lib_txout(&ROut { value: 77 + g as u64, script: vec![0x52] })]);
+                }
+                _ => {}
             }
-            "set_nlocktime" => {
-                t.set_nlocktime(0x0000beef);
-            }
-            "add_input" => t.add_input(&lib_txin(&RIn { txid_wire: [0x33; 32], vout: 9, script: vec![], sequence: 0x00000011 })),
-            "add_output" => t.add_output(&lib_txout(&ROut { value: 77, script: vec![0x52] })),
-            "add_inputs(two)" => t.add_inputs(vec![lib_txin(&RIn { txid_wire: [0x33; 32], vout: 9, script: vec![], sequence: 0x00000011 }), lib_txin(&RIn { txid_wire: [0x34; 32], vout: 8, script: vec![], sequence: 0x00000012 })]),
-            "add_outputs(two)" | "add_outputs(two) from no outputs" => t.add_outputs(vec![lib_txout(&ROut { value: 77, script: vec![0x52] }), lib_txout(&ROut { value: 78, script: vec![0x53] })]),
-            "add_inputs(one) add_outputs(one)" => {
-                t.add_inputs(vec![lib_txin(&RIn { txid_wire: [0x33; 32], vout: 9, script: vec![], sequence: 0x00000011 })]);
-                t.add_outputs(vec![lib_txout(&ROut { value: 77, script: vec![0x52] })]);
-            }
-            _ => {}
         }
         t.sighash_preimage(flag_to_sighash(f2).unwrap(), idx, &script, value).map_err(|e| e.to_string())
     });
-    match mutation {
-        "set_input(same outpoint, other sequence)" => model.inputs[1].sequence = 0x0a0b0c0d,
-        "set_input(same txid, other vout)" => model.inputs[0].vout = 0x7777,
-        "set_input(other txid)" => model.inputs[1].txid_wire = [0x5a; 32],
-        "set_output(same script, other value)" => model.outputs[1].value = 42,
-        "set_output(other script, same value)" => model.outputs[0].script = vec![0x51],
-        "set_version" => model.version = 0x0badcafe,
-        "set_nlocktime" => model.locktime = 0x0000beef,
-        "add_input" => model.inputs.push(RIn { txid_wire: [0x33; 32], vout: 9, script: vec![], sequence: 0x00000011 }),
-        "add_output" => model.outputs.push(ROut { value: 77, script: vec![0x52] }),
-        "add_inputs(two)" => {
-            model.inputs.push(RIn { txid_wire: [0x33; 32], vout: 9, script: vec![], sequence: 0x00000011 });
-            model.inputs.push(RIn { txid_wire: [0x34; 32], vout: 8, script: vec![], sequence: 0x00000012 });
+    for (k, mutation) in mutations.iter().enumerate() {
+        let g = tag(k);
+        if (mutation.starts_with("set_output(same") && model.outputs.len() < 2) || (mutation.starts_with("set_output(other") && model.outputs.is_empty()) {
+            // the history is not constructible (no such output to replace): nothing to compare
+            acc.bump("history_not_constructible", 1);
+            return;
         }
-        "add_outputs(two)" | "add_outputs(two) from no outputs" => {
-            model.outputs.push(ROut { value: 77, script: vec![0x52] });
-            model.outputs.push(ROut { value: 78, script: vec![0x53] });
+        match *mutation {
+            "set_input(same outpoint, other sequence)" => model.inputs[1].sequence = 0x0a0b0c0d ^ g as u32,
+            "set_input(same txid, other vout)" => model.inputs[0].vout = 0x7777 ^ g as u32,
+            "set_input(other txid)" => {
+                // set_prev_tx_id takes display order like TxIn::new
+                let mut w = [0x5a ^ g; 32];
+                w.reverse();
+                model.inputs[1].txid_wire = w
+            }
+            "set_output(same script, other value)" => model.outputs[1].value = 42 + g as u64,
+            "set_output(other script, same value)" => model.outputs[0].script = vec![0x51, 0x01, g],
+            "set_version" => model.version = 0x0badcafe ^ g as u32,
+            "set_nlocktime" => model.locktime = 0x0000beef ^ g as u32,
+            "add_input" => model.inputs.push(RIn { txid_wire: [0x33 ^ g; 32], vout: 9, script: vec![], sequence: 0x00000011 }),
+            "add_output" => model.outputs.push(ROut { value: 77 + g as u64, script: vec![0x52] }),
+            "add_inputs(two)" => {
+                model.inputs.push(RIn { txid_wire: [0x33 ^ g; 32], vout: 9, script: vec![], sequence: 0x00000011 });
+                model.inputs.push(RIn { txid_wire: [0x34 ^ g; 32], vout: 8, script: vec![], sequence: 0x00000012 });
+            }
+            "add_outputs(two)" | "add_outputs(two) from no outputs" => {
+                model.outputs.push(ROut { value: 77 + g as u64, script: vec![0x52] });
+                model.outputs.push(ROut { value: 78 + g as u64, script: vec![0x53] });
+            }
+            "add_inputs(one) add_outputs(one)" => {
+                model.inputs.push(RIn { txid_wire: [0x33 ^ g; 32], vout: 9, script: vec![], sequence: 0x00000011 });
+                model.outputs.push(ROut { value: 77 + g as u64, script: vec![0x52] });
+            }
+            _ => {}
         }
-        "add_inputs(one) add_outputs(one)" => {
-            model.inputs.push(RIn { txid_wire: [0x33; 32], vout: 9, script: vec![], sequence: 0x00000011 });
-            model.outputs.push(ROut { value: 77, script: vec![0x52] });
-        }
-        _ => {}
     }
+    let last = mutations.last().copied().unwrap_or("none");
     let want = sh::forkid_preimage(&model, idx, &sub, value, f2);
     match (lib, want) {
         (Err(p), _) => acc.violate(format!("C03/history/kind=panic@{}", panic_site(&p)), case.idx, case.json(input), p),
@@ -593,7 +655,7 @@ fn history_case(acc: &mut Acc, case: &Case, f1: u32, f2: u32, mutation: &str, id
             acc.outcome(&[0x77, (got == w) as u8]);
             if got != w {
                 let field = forkid_field(first_diff(&got, &w), sub.len());
-                acc.violate(format!("C03/history/after={}/field={}", mutation.split('(').next().unwrap_or(mutation), field), case.idx, case.json(input), format!("library={} specified={}", hx(&got), hx(&w)));
+                acc.violate(format!("C03/history/after={}/field={}", last.split('(').next().unwrap_or(last), field), case.idx, case.json(input), format!("library={} specified={}", hx(&got), hx(&w)));
             }
         }
         (Ok(Ok(_)), Pre::NoSuchInput) => {}
